@@ -71,6 +71,15 @@ BUILTIN_EXC = {
     'UnicodeEncodeError': ['UnicodeError'], 'Warning': ['Exception'],
     'UserWarning': ['Warning'], 'DeprecationWarning': ['Warning'],
     'queue.Full': ['Exception'], 'queue.Empty': ['Exception'],
+    # requests / urllib3 (class hierarchy of the installed packages; pywbem/_cim_http.py catches these)
+    'requests.exceptions.RequestException': ['OSError'],
+    'requests.exceptions.ConnectionError': ['requests.exceptions.RequestException'],
+    'requests.exceptions.SSLError': ['requests.exceptions.ConnectionError'],
+    'requests.exceptions.Timeout': ['requests.exceptions.RequestException'],
+    'requests.exceptions.ReadTimeout': ['requests.exceptions.Timeout'],
+    'requests.exceptions.RetryError': ['requests.exceptions.RequestException'],
+    'requests.packages.urllib3.exceptions.HTTPError': ['Exception'],
+    'requests.packages.urllib3.exceptions.MaxRetryError': ['requests.packages.urllib3.exceptions.HTTPError'],
 }
 
 
